@@ -281,6 +281,38 @@ example :
     plainContent (.child (inB ['R']) [] kids .nil) = true ∧ treeWriterDefined tblNsEnv {} m (inB ['R']) [] kids = true := by
   decide +kernel
 
+/-! ## Both writers -/
+
+/-- The assumption about lxml, made explicit: what `LxmlEventWriter` ends up with —
+`ElementTreeContentHandler` builds an element tree from the SAX calls, `etree.tostring` prints it,
+a parser reads it back (`lxmlRead`) — is the tree those calls denote (`saxTree`: names already
+expanded, `startPrefixMapping` calls carry no content).  Not proved: lxml is not modelled; the
+correspondence op `writer.lxml` samples exactly this statement on the real `LxmlEventWriter`. -/
+def LxmlBuildsSaxTree (lxmlRead : List Call → Option Node) : Prop :=
+  ∀ calls t, saxTree calls = some t → lxmlRead calls = some t
+
+/-- **writers_denote_same_tree (partial)**: under the hypotheses of `write_wellformed_partial`
+(any values, QNames included) and the assumption `LxmlBuildsSaxTree`, the document of the native
+writer and the document of the lxml writer denote the same tree: both writers run the same
+`EventHandler`, whose calls are the same without indentation (`handlerRun … true` = `handlerRun … false`),
+`XMLGenerator`'s text denotes the tree of those calls (L2), lxml's tree is that tree by assumption. -/
+theorem writers_denote_same_tree_partial (lxmlRead : List Call → Option Node) (hl : LxmlBuildsSaxTree lxmlRead)
+    (cfg : Cfg) (hcfg : plainCfg cfg = true)
+    (m : List (Pfx × Str)) (hm : userMapOK tblNsEnv m = true)
+    (q : Str) (attrs : List (Str × Val)) (kids : Content)
+    (hok : contentOK tblNsEnv (userDefault m) (.child q attrs kids .nil) = true)
+    (hshape : shapeOK true kids = true) :
+    ∃ toks calls t, nativeWrite tblNsEnv cfg m (document q attrs kids) = .ok toks
+      ∧ handlerRun tblNsEnv cfg false m (document q attrs kids) = (calls, none)
+      ∧ infoset toks = some t ∧ lxmlRead calls = some t := by
+  obtain ⟨cs, hcs⟩ := Proofs.Shape.docCalls_defined tblNsEnv (Proofs.MapInv.envOK_sound _ tables_ok) cfg hcfg m hm q attrs kids hok hshape
+  obtain ⟨toks, node, h1, h2, h3⟩ := document_main tblNsEnv tables_ok cfg hcfg m hm q attrs kids hok cs hcs
+  exact ⟨toks, cs, node, h1,
+    handlerRun_document tblNsEnv cfg m q attrs kids cs (Proofs.UserMap.userMapOK_valid tblNsEnv m hm) hcs, h2, hl cs node h3⟩
+
+/-- the assumption is satisfiable (by the reading it names) -/
+example : LxmlBuildsSaxTree saxTree := fun _ _ h => h
+
 /-! ## Prefix generation -/
 
 /-- **generate_prefix never overwrites**: for EVERY prefix map and every namespace,
@@ -310,6 +342,41 @@ theorem load_prefix_bound (d : Option Str) (u : Str) (M : NsMap)
     ∧ Proofs.MapInv.MapOK tblNsEnv d (loadPrefix tblNsEnv u M).2 :=
   let h := Proofs.MapInv.loadPrefix_ok tblNsEnv (Proofs.MapInv.envOK_sound _ tables_ok) d u M hM hu
   ⟨h.2.2, h.2.1⟩
+
+/-- **qname_value_resolves**: the lexical form `QNameConverter.serialize` gives a QName value with a
+declarable namespace (an `xsi:type` value, …) is `prefix:local` with `prefix` bound to the QName's
+namespace in the map that results — the map whose new entries the element declares (`Ext`: nothing
+the ancestors declared is rebound) —, or the bare `local` when that namespace is the default
+namespace of that map.  (That the document's in-scope bindings are this map is invariant `ScopeEq`
+of the L2 proof; a reader that resolves QName *values* is not part of `infoset`, so
+`serialize_says_metadata` still excludes `xsi:type` — gap 7.) -/
+theorem qname_value_resolves (d : Option Str) (t u l : Str) (M : NsMap)
+    (hM : Proofs.MapInv.MapOK tblNsEnv d M) (ht : clark t = some (some u, l)) (hu : uriOK u = true) :
+    ∃ s M', serializeQName tblNsEnv t M = .ok (s, M') ∧ Proofs.MapInv.Ext M M'
+      ∧ ((∃ p, p ≠ [] ∧ s = p ++ ':' :: l ∧ dget M' (some p) = some u)
+         ∨ (s = l ∧ (dget M' none = some u ∨ dget M' (some []) = some u))) := by
+  have hs := Proofs.MapInv.clark_splitQName t _ ht
+  obtain ⟨hext, _, hget⟩ := Proofs.MapInv.loadPrefix_ok tblNsEnv (Proofs.MapInv.envOK_sound _ tables_ok) d u M hM hu
+  unfold serializeQName
+  rw [hs]
+  simp only []
+  generalize hlp : loadPrefix tblNsEnv u M = r at hext hget
+  obtain ⟨po, M'⟩ := r
+  simp only [] at hext hget
+  cases po with
+  | none => exact ⟨l, M', rfl, hext, Or.inr ⟨rfl, Or.inl hget⟩⟩
+  | some p =>
+    by_cases hp : p.isEmpty = true
+    · have : p = [] := by simpa using hp
+      subst this
+      exact ⟨l, M', by simp, hext, Or.inr ⟨rfl, Or.inr hget⟩⟩
+    · refine ⟨p ++ ':' :: l, M', by simp [hp], hext, Or.inl ⟨p, ?_, rfl, hget⟩⟩
+      intro h; subst h; simp at hp
+
+/-- the hypotheses hold e.g. for an `xsi:type` value in `urn:b` under a user map that binds `p` to it -/
+example : Proofs.MapInv.MapOK tblNsEnv (userDefault [(some ['p'], urnB)]) (serializerNsMap [(some ['p'], urnB)])
+    ∧ clark (inB ['T']) = some (some urnB, ['T']) ∧ uriOK urnB = true :=
+  ⟨Proofs.UserMap.userMapOK_MapOK tblNsEnv _ (by decide +kernel), by decide +kernel, by decide +kernel⟩
 
 /-- the cleaned user map satisfies the invariant whenever it passes the decidable check -/
 theorem user_map_invariant (m : List (Pfx × Str)) (hm : userMapOK tblNsEnv m = true) :
